@@ -778,6 +778,7 @@ void eval_instruction (const char *p) {
         {
         case F_PUSH:		/* Push a number of things onto the stack */
           n = EXTRACT_UCHAR (pc++);
+          STACK_CHECK (n); /* the operands are pushed without further checks */
           while (n--)
             {
               i = EXTRACT_UCHAR (pc++);
@@ -866,6 +867,7 @@ void eval_instruction (const char *p) {
           }
           break;
         case F_LOCAL_LVALUE:
+          STACK_CHECK (1);
           (++sp)->type = T_LVALUE;
           sp->u.lvalue = fp + EXTRACT_UCHAR (pc++);
           break;
@@ -1096,6 +1098,7 @@ void eval_instruction (const char *p) {
 
             s = fp + EXTRACT_UCHAR (pc++);
             DEBUG_CHECK ((fp - s) >= csp->num_local_variables, "Tried to push non-existent local\n");
+            STACK_CHECK (1);
             if ((s->type == T_OBJECT) && (s->u.ob->flags & O_DESTRUCTED))
               {
                 *++sp = const0;
@@ -1116,6 +1119,7 @@ void eval_instruction (const char *p) {
 
             s = fp + EXTRACT_UCHAR (pc++);
             DEBUG_CHECK ((fp - s) >= csp->num_local_variables, "Tried to push non-existent local\n");
+            STACK_CHECK (1);
 
             /*
              * If variable points to a destructed object, replace it
@@ -1418,6 +1422,7 @@ void eval_instruction (const char *p) {
           {
             int flags = EXTRACT_UCHAR (pc++);
 
+            STACK_CHECK (3); /* keys, hidden iterator, lvalue(s) */
             if (flags & 4) /* mapping */
               {
                 CHECK_TYPES (sp, T_MAPPING, 2, F_FOREACH);
@@ -1657,6 +1662,8 @@ void eval_instruction (const char *p) {
             LOAD_SHORT (offset, pc);
             offset += (unsigned short)num_varargs;
             num_varargs = 0;
+            if (!offset)
+              STACK_CHECK (1); /* nothing is popped to make room for the result */
             v = allocate_empty_array ((int) offset);
             /*
              * transfer svalues in reverse...popping stack as we go
@@ -1675,6 +1682,8 @@ void eval_instruction (const char *p) {
 
             offset += (unsigned short)num_varargs;
             num_varargs = 0;
+            if (!offset)
+              STACK_CHECK (1); /* nothing is popped to make room for the result */
             m = load_mapping_from_aggregate (sp -= offset, offset);
             (++sp)->type = T_MAPPING;
             sp->u.map = m;
@@ -1950,6 +1959,7 @@ void eval_instruction (const char *p) {
             svalue_t *s;
 
             s = find_value ((int)(EXTRACT_UCHAR (pc++) + variable_index_offset));
+            STACK_CHECK (1);
 
             /*
              * If variable points to a destructed object, replace it
@@ -2365,6 +2375,7 @@ void eval_instruction (const char *p) {
             }
           break;
         case F_GLOBAL_LVALUE:
+          STACK_CHECK (1);
           (++sp)->type = T_LVALUE;
           sp->u.lvalue = find_value ((int) (EXTRACT_UCHAR (pc++) + variable_index_offset));
           break;
